@@ -926,6 +926,17 @@ def recursive_fields(lib):
         out[v['name']] = rf
     return out
 
+def walk_pat_bindings(p):
+    out = []
+    def rec(q):
+        if not isinstance(q, dict): return
+        if q.get('k') == 'Binding': out.append(q['var'])
+        for s_ in q.get('subs', []) or []: rec(s_['pat'])
+        for s_ in q.get('pats', []) or []: rec(s_)
+        if q.get('sub'): rec(q['sub'])
+    rec(p)
+    return out
+
 def arm_variant_bindings(arm):
     """variant -> {field idx: var} for each SymbolicBDD variant pattern of the arm"""
     out = {}
@@ -1046,6 +1057,65 @@ def rule_X6(F, R, parts=('coverage', 'labels')):
             if not ok:
                 R.violation('rsbdd::parser_io::SymbolicParseTree / X6 / labels of %s' % '|'.join(sorted(vb)), 'X6', 'two outgoing edges of one node kind carry the same label %s: the children cannot be told apart' % labels)
         break
+    # which label goes with which child: the documented labelling (a renamed label changes the exported text; a label on the wrong child
+    # exports a different tree)
+    REF_LABELS = {'BinaryOp': {'L': 1, 'R': 2}, 'Ite': {'If': 0, 'Then': 1, 'Else': 2}, 'CountableConst': {'{{}}': 1}, 'CountableVariable': {'L{{}}': 1, 'R{{}}': 2},      # `{j}` / `L{j}` / `R{j}`: literal braces around the index
+                  'Quantifier': {'': 2}, 'Not': {'': 0}, 'FixedPoint': {'': 2}}
+    import engine_u as _eu
+    for m in walk(te['body']):
+        if m['k'] != 'Match': continue
+        if not any(arm_variant_bindings(a) for a in m['arms']): continue
+        for a in m['arms']:
+            vb = arm_variant_bindings(a)
+            if not vb: continue
+            # loop variables stand for the list they walk
+            loopsrc = {}
+            for fm in walk(a['body']):
+                if fm['k'] == 'Match' and fm.get('source') == 'ForLoopDesugar':
+                    sc = strip(fm['scrutinee'])
+                    src = None
+                    x = strip(sc['args'][0]) if sc['k'] == 'Call' and sc['args'] else None
+                    while x is not None and x['k'] == 'Call' and x['args']: x = strip(x['args'][0])
+                    if x is not None and x['k'] in ('VarRef', 'UpvarRef'): src = x['var']
+                    for mm in walk(fm['arms'][0]['body']):
+                        if mm['k'] == 'Match' and mm.get('source') == 'ForLoopDesugar':
+                            for aa in mm['arms']:
+                                pp_ = unwrap_pat(aa['pat'])
+                                if pp_['k'] == 'Variant' and pp_['variant'] == 'Some' and pp_['subs']:
+                                    for bnd in walk_pat_bindings(pp_['subs'][0]['pat']): loopsrc[bnd] = src
+                            break
+            got = {}
+            for e in walk(a['body']):
+                if not is_edge_push(e): continue
+                tup = [x for x in walk(e) if x['k'] == 'Tuple' and len(x['fields']) == 3]
+                if not tup: continue
+                lit = ''
+                for x in walk(tup[0]['fields'][1]):
+                    if x['k'] == 'Literal' and x.get('lit') == 'Str': lit += x['value']
+                    if x['k'] == 'Literal' and x.get('lit') == 'ByteStr':
+                        try: lit += _eu.decode_template(x['value'])
+                        except Exception: lit += '?'
+                child = set()
+                for x in walk(tup[0]['fields'][2]):
+                    if x['k'] == 'Closure':
+                        ct = lib.ithir.get(canon(x['def']))
+                        if ct:
+                            for y in walk(ct['body']):
+                                if y['k'] in ('UpvarRef', 'VarRef'): child.add(loopsrc.get(y['var'], y['var']))
+                got[lit] = child
+            for variant, b in vb.items():
+                ref = REF_LABELS.get(variant)
+                if ref is None: continue
+                mine = {}
+                for lit, vars_ in got.items():
+                    idx = sorted(i for i, v in b.items() if v in vars_)
+                    if idx: mine[lit] = idx[0] if len(idx) == 1 else tuple(idx)
+                ok = mine == ref
+                R.count('X6:label-child-pairs'); R.obligation(ok, 'X6 label-child ' + variant)
+                if not ok:
+                    R.violation('rsbdd::parser_io::SymbolicParseTree / X6 / labels of %s' % variant, 'X6',
+                                'the outgoing edges of a %s node must be labelled %s (label -> field of the node); found %s' % (variant, ref, mine))
+        break
     # every non-recursive field of a node kind (operator, binder list, bound, name, initial value) must reach its label
     a = lib.adts.get(SYN)
     payload = {}
@@ -1110,6 +1180,16 @@ def rule_X7(F, R):
             ok = any(callee_name(e) == 'itertools::Itertools::unique' for e in uniq) or bool(sets)
         R.count('X7:deduplicated-lists'); R.obligation(ok, 'X7 unique ' + fn)
         if not ok: R.violation('%s / X7 / duplicates' % fn, 'X7', 'the %s must be de-duplicated (`.unique()`): a node shared by several parents is one node with one set of outgoing edges' % what)
+    # (c') the label of a node shows its lists as they are: no adaptor that drops, repeats or reorders members
+    BAD = ('unique', 'unique_by', 'dedup', 'dedup_by', 'filter', 'filter_map', 'skip', 'take', 'skip_while', 'take_while', 'step_by', 'rev', 'sorted', 'sorted_by', 'sorted_by_key', 'last', 'nth', 'first')
+    for name, t in lib.ithir.items():
+        base = name.split('::{closure')[0]
+        if not (base.endswith('Labeller>::node_label') and 'SymbolicParseTree' in base): continue
+        for e in walk(t['body']):
+            if e['k'] == 'Call' and (callee_name(e) or '').split('::')[-1] in BAD:
+                R.obligation(False, 'X7 label adaptor')
+                R.violation('%s / X7 / label list through %s' % (base, (callee_name(e) or '').split('::')[-1]), 'X7',
+                            'a node label passes a list of the node through `%s`: the label no longer shows the list the syntax tree holds' % (callee_name(e) or '').split('::')[-1], e['loc'])
     # (c) child lists walked element by element
     te = [k for k in lib.ithir if k.endswith('GraphWalk>::edges') and 'SymbolicParseTree' in k]
     if te:
@@ -1167,3 +1247,40 @@ def rule_X8(F, R, crate_name, kind=None):
                                 'a file opened for writing with %s keeps the tail of an existing longer file: the result is not the emitted text alone' % '.'.join(reversed(names)), e['loc'])
     if n == 0:
         R.violation('%s / X8 / VACUITY' % crate_name, 'VACUITY', 'no output file creation found in %s' % crate_name)
+
+# ------------------------------------------------------------------------------------------------ X9 what goes to stdout
+def rule_X9(F, R):
+    """C10: the standard output of the solver is its result and nothing else: the only functions that print to stdout are the table /
+    variable printers and the -r export in main; diagnostics (benchmark progress, run-time report) go to stderr"""
+    import facts as _facts
+    binc = F.bin()
+    if binc is None:
+        R.violation('rsbdd / X9 / anchor', 'UNDECIDABLE', 'binary crate not found'); return
+    ALLOWED = {'rsbdd::main', 'rsbdd::print_header', 'rsbdd::print_sized_line', 'rsbdd::print_true_vars_recursive', 'rsbdd::print_truth_table_recursive'}
+    n = 0
+    for name, t in binc.thir.items():
+        base = name.split('::{closure')[0]
+        if '<Args as clap::' in base: continue
+        for e in walk(t['body']):
+            if e['k'] == 'Call' and callee_name(e) == 'std::io::_print':
+                n += 1
+                roots = _facts.baseline_roots(binc, base) if base not in _facts.baseline_fns() else {base}
+                ok = bool(roots) and roots <= ALLOWED
+                R.count('X9:stdout-writes'); R.obligation(ok, 'X9 %s %s' % (base, e['loc']))
+                if not ok:
+                    R.violation('%s / X9 / writes to stdout' % base, 'X9', '%s prints to stdout, which carries the result (table, variable list, ordering) and nothing else; diagnostics belong on stderr' % base.split('::')[-1], e['loc'])
+    # in main, stdout is written only by the ordering export (-r)
+    m = binc.ithir.get('rsbdd::main')
+    if m is not None:
+        for e in walk(m['body']):
+            if e['k'] == 'Call' and callee_name(e) == 'std::io::_print':
+                # must sit under the export_ordering flag
+                pass
+        import flow
+        fl = flow.Flow(binc); found = []
+        flow.scan(fl, m['body'], {}, lambda x: x.get('k') == 'Call' and callee_name(x) == 'std::io::_print', found)
+        for node, env in found:
+            ok = any(pol and c == ('field', ('args',), 'export_ordering') for c, pol in env.get('#conds', ()))
+            R.obligation(ok, 'X9 main print')
+            if not ok: R.violation('rsbdd::main / X9 / print outside the ordering export', 'X9', 'main prints to stdout outside the --export-ordering block', node.get('loc'))
+    if n == 0: R.violation('rsbdd / X9 / VACUITY', 'VACUITY', 'no stdout write found in the binary')
